@@ -262,6 +262,10 @@ class _CacheVector(object):
         n = lib().ds_cache_count(self._ptr, self._a, self._b)
         return max(n, 0)
 
+    def __iter__(self):
+        for i in range(len(self)):
+            yield self[i]
+
     def __getitem__(self, idx):
         idx = _to_unsigned(idx, 'index')
         cat_id = ctypes.c_uint()
@@ -286,6 +290,15 @@ class _CacheVector(object):
         r.op_string = ctypes.string_at(s1, l1.value)
         r.op_symbol = ctypes.string_at(s2, l2.value)
         return r
+
+
+def c_integer(value):
+    """`<size_t>ptr` / `<long>x`: the address of a C object, or the integer itself"""
+    if isinstance(value, CellItemPtr):
+        return ctypes.addressof(value._p.contents)
+    if value is None:
+        return 0
+    return int(value)
 
 
 class _CacheMap(object):
